@@ -2089,10 +2089,21 @@ func (ss *ServerSession) initialize(ctx context.Context, params *InitializeParam
 	}
 
 	s := ss.server
+	version := negotiatedVersion(params.ProtocolVersion)
+	if vs := ss.supportedVersions; vs != nil && !slices.Contains(vs, version) {
+		// The transport has declared (ProtocolVersionSupporter) that it cannot
+		// serve this version: answer with the newest legacy version it can.
+		for _, v := range vs { // newest first, like supportedProtocolVersions
+			if v < protocolVersion20260728 {
+				version = v
+				break
+			}
+		}
+	}
 	return &InitializeResult{
 		// TODO(rfindley): alter behavior when falling back to an older version:
 		// reject unsupported features.
-		ProtocolVersion: negotiatedVersion(params.ProtocolVersion),
+		ProtocolVersion: version,
 		Capabilities:    s.capabilities(),
 		Instructions:    s.opts.Instructions,
 		ServerInfo:      s.impl,
